@@ -198,7 +198,19 @@ func c20Scripts() []c20Script {
 	}
 }
 
+// c20NoRoot makes the next fixtures run without Paths.RootURL (race pass only).
+var c20NoRoot bool
+
 func c20Config(smtp bool) world.Config {
+	if c20NoRoot {
+		c := c20ConfigBase(smtp)
+		c.RootURL = "-"
+		return c
+	}
+	return c20ConfigBase(smtp)
+}
+
+func c20ConfigBase(smtp bool) world.Config {
 	return world.Config{Modules: []string{"auth", "otp", "remember", "register", "confirm", "recover", "oauth2", "logout", "totp2fa", "recovery"},
 		EmailAuthRequired: true, MailGoroutine: true, SMTPMailer: smtp, LogMailer: !smtp, RecoverLoginAfter: false, ModuleList: true, PerClientData: true, ProtFail: authboss.RespondRedirect}
 }
@@ -586,6 +598,13 @@ func C20RacePass(reps int) {
 			runSet(smtp, []int{0, 1, 2, 3, 4}, r > 0)
 		}
 	}
+	// a deployment without Paths.RootURL: two OAuth2 round trips and two remember scripts side by side
+	c20NoRoot = true
+	for r := 0; r < reps; r++ {
+		runSet(false, []int{5, 5}, true)
+		runSet(false, []int{1, 5}, true)
+	}
+	c20NoRoot = false
 	fmt.Println("racepass done")
 }
 
@@ -720,7 +739,7 @@ func c20RaceUnit(reps int) engine.Unit {
 			res.Violations = append(res.Violations, engine.Violation{Rule: "harness/racepass-failed", Detail: err.Error() + ": " + trunc(errb.String(), 800)})
 		}
 		np := len(c20Scripts()) * (len(c20Scripts()) + 1) / 2
-		pairs := np*2 + 2
+		pairs := np*2 + 2 + 2
 		res.Evaluations = pairs * reps
 		res.Cover["race-pass-runs"] = pairs * reps
 		res.Cover["race-reports"] = n
